@@ -40,7 +40,7 @@ Proof.
 Qed.
 
 Lemma be_value_snoc a x : be_value (a ++ [x]) = be_value a * 256 + x.
-Proof. unfold be_value. rewrite be_acc_app. reflexivity. Qed.
+Proof. unfold be_value. rewrite be_acc_app. cbn [be_acc]. lia. Qed.
 
 Lemma be_value_cons x r : be_value (x :: r) = x * 256 ^ N.of_nat (length r) + be_value r.
 Proof.
